@@ -93,6 +93,12 @@ func Judge(c *Call, env *Env) *Verdict {
 		// refused for a reason a property names (frozen, paused, non-payable, different hash)
 		if vd.MustFail == "" && m.gaveUp == "" && !c.Fault && carriesValue(c.Carried) && (c.Kind == "cont" || c.Kind == "refund") {
 			props := P("C01", "C10")
+			if c.Kind == "refund" {
+				props = append(props, "C02") // a refused refund destroys supply
+				if isFrozenOrPausedRefusal(c.Err) {
+					props = append(props, "C04") // refunds flagged return-after-error are exempt from freeze and pause
+				}
+			}
 			vd.add(props, "required-acceptance", "the %s shard refused the %s message %s@%x emitted by a successful sender-side execution: %s", "destination", c.Kind, c.Func, c.Args, c.Err)
 		}
 		// the hand-over message the old holder's shard emitted must be accepted by the next holder's
@@ -123,6 +129,10 @@ func Judge(c *Call, env *Env) *Verdict {
 	m.compareOutputs()
 	m.checkGas()
 	return vd
+}
+
+func isFrozenOrPausedRefusal(e string) bool {
+	return strings.Contains(e, "frozen") || strings.Contains(e, "paused")
 }
 
 // carriesValue: a message moving only zero quantities may be refused (silent case).
